@@ -30,7 +30,8 @@ package api
 //@     invariant forall i int :: 0 <= i && i < idx3 ==> exists j int :: 0 <= j && j < len(po2.Origins) && maEqual(po.Origins[i], po2.Origins[j])
 //@   loop 4 (range po2.Origins)
 //@     invariant found ==> exists j int :: 0 <= j && j < idx4 && maEqual(o1, po2.Origins[j])
-//@   modifies nothing
+//@   at_call strings.Join assert [compared-lists-were-sorted] in(elems, sortedLists)
+//@   modifies sortedLists
 
 //@ func PeersToStrings
 //@   property C04 C08
@@ -205,12 +206,21 @@ package api
 
 // "own equality used by callers": pins reported equal agree on CID, type, depth, reference and options
 // (allocations are compared through sorted, joined strings: not restated here)
+// (slices are values in the model, so the in-place effect of sort.Strings is not modelled; what IS checked is the
+// call history: each of the two lists that are compared was handed to sort.Strings before the comparison - otherwise
+// pins that differ only in the order of their allocations, e.g. a pin and its own decoded copy, compare unequal)
+//@ ghost var sortedLists set[[]string]
 //@ extern sort.Strings(x)
+//@   ensures in(x, sortedLists)
+//@   ensures forall l []string :: in(l, old(sortedLists)) ==> in(l, sortedLists)
+//@   modifies sortedLists
+//@ extern strings.Join(elems, sep)
 //@   modifies nothing
 //@ func (pin *Pin) Equals
 //@   property C08 C04
+//@   at_call strings.Join assert [compared-lists-were-sorted] in(elems, sortedLists)
 //@   ensures [equal-pins-agree] res ==> pin != nil && pin2 != nil && pin.Cid == pin2.Cid && pin.Type == pin2.Type && pin.MaxDepth == pin2.MaxDepth && (pin.Reference == nil <==> pin2.Reference == nil) && (pin.Reference != nil ==> *pin.Reference == *pin2.Reference) && optsEq(pin.PinOptions, pin2.PinOptions)
-//@   modifies lastOptsEq
+//@   modifies lastOptsEq, sortedLists
 
 // ---- text forms of the pin type and pin mode (JSON form of the REST API, query strings): function against spec
 // function, and the two spec functions are inverse on every defined value ----
